@@ -34,7 +34,8 @@ def rand_target(rng):
 
 
 def gen_steps(rng):
-    return [val(rng.choice(['a', 'b', 'bb', 0, 1, -1])) for _ in range(rng.randint(1, 2))]
+    return [{'k': 'slice', 'lo': rng.randint(0, 2)} if rng.random() < 0.2 else val(rng.choice(['a', 'b', 'bb', 0, 1, -1]))
+            for _ in range(rng.randint(1, 2))]
 
 
 def gen_atom(rng, mode, counter):
@@ -42,7 +43,7 @@ def gen_atom(rng, mode, counter):
     rhs = val(rng.choice([0, 1, 2, 'a', 'b', '', None, True]))
     cmp_ = rng.choice(['==', '!=', '<', '>', '<=', '>='])
     if r < 0.3:
-        return {'op': 'm', 'cmp': cmp_, 'rhs': rhs}
+        return {'op': 'm', 'cmp': cmp_, 'rhs': rhs, 'refl': rng.random() < 0.3}
     if r < 0.37:
         return {'op': 'mtruthy'}
     if r < 0.5:
@@ -57,13 +58,20 @@ def gen_atom(rng, mode, counter):
         return {'op': 'pred', 'name': rng.choice(names), 'id': counter[0]}
     if r < 0.86:
         return gen_check(rng)
+    if rng.random() < 0.25:          # a nested Match (switches an Auto-mode tree to match mode for its sub-pattern)
+        hasdef = rng.random() < 0.5
+        sub = rng.choice([{'op': 'type', 't': rng.choice(['int', 'str', 'dict', 'object'])}, {'op': 'lit', 'v': G.rand_scalar(rng)},
+                          {'op': 'list', 'alts': [{'op': 'type', 't': 'int'}]},
+                          {'op': 'dict', 'items': [[{'op': 'type', 't': 'str'}, {'op': 'type', 't': 'int'}]]}])
+        return {'op': 'match', 'sub': sub, 'hasdef': hasdef, 'def': G.rand_scalar(rng) if hasdef else NONE}
     if mode == 'match':
         if rng.random() < 0.5:
             return {'op': 'type', 't': rng.choice(['int', 'str', 'bool', 'object', 'dict', 'list', 'NoneType'])}
         return {'op': 'lit', 'v': G.rand_scalar(rng)}
     if rng.random() < 0.5:
         return {'op': 'val', 'v': G.rand_scalar(rng)}
-    return {'op': 'regex', 'name': rng.choice(['ra', 'rb', 'rs']), 'func': rng.choice(['fullmatch', 'match', 'search'])}
+    return {'op': 'regex', 'name': rng.choice(['ra', 'rb', 'rs', 'rA']), 'func': rng.choice(['fullmatch', 'match', 'search']),
+            'flags': rng.choice(['', 'I'])}
 
 
 def gen_check(rng):
@@ -79,7 +87,8 @@ def gen_check(rng):
     validate = [{'op': 'pred', 'name': rng.choice(['yes', 'no', 'zero', 'truthy', 'isnum', 'boom']), 'id': 0}
                 for _ in range(rng.randint(1, 2))] if rng.random() < 0.45 else []
     hasdef = rng.random() < 0.4
-    return {'op': 'check', 'types': types, 'inst': inst, 'vals': vals, 'oneof': oneof, 'validate': validate,
+    return {'op': 'check', 'sub': gen_steps(rng) if rng.random() < 0.3 else [], 'seq': rng.choice(['list', 'tuple']),
+            'types': types, 'inst': inst, 'vals': vals, 'oneof': oneof, 'validate': validate,
             'hasdef': hasdef, 'def': G.rand_scalar(rng) if hasdef else NONE}
 
 
@@ -113,4 +122,8 @@ def gen_tree(rng, mode, depth, counter):
     cases = [[gen_tree(rng, mode, depth - 1, counter), gen_tree(rng, mode, depth - 1, counter)]
              for _ in range(rng.randint(1, 3))]
     hasdef = rng.random() < 0.4
-    return {'op': 'switch', 'cases': cases, 'hasdef': hasdef, 'def': G.rand_scalar(rng) if hasdef else NONE}
+    form = 'list'
+    keys = [repr(k) for k, _ in cases]
+    if rng.random() < 0.4 and len(set(keys)) == len(keys) and all(k['op'] not in ('mtruthy', 'msubt', 'lit', 'type') for k, _ in cases):
+        form = 'dict'                # {key spec: value spec}: every key spec object is a distinct, hashable dict key
+    return {'op': 'switch', 'cases': cases, 'form': form, 'hasdef': hasdef, 'def': G.rand_scalar(rng) if hasdef else NONE}
